@@ -27,7 +27,7 @@ from vf.props import c05
 
 ID = 'C10'
 LEVEL = 'fault_enumeration'
-ROLES = ['forward', 'tunnel', 'web', 'static', 'reverse', 'reverse-keepalive', 'nonutf8-target', 'close-hook-raises', 'bad-request', 'not-found', 'auth-failed']
+ROLES = ['forward', 'tunnel', 'web', 'static', 'reverse', 'reverse-keepalive', 'nonutf8-target', 'close-hook-raises', 'bad-request', 'not-found', 'auth-failed', 'tls-handshake-fails']
 MODES = ['local', 'remote', 'threaded']
 RULE = ('enumeration: for each (role, mode) a fault-free dry run counts the proxy socket calls and the peer actions of the '
         'connection; every (call ordinal x errno), (action index x peer fault), connect fault and the idle-timeout ending is run; '
@@ -40,8 +40,22 @@ ASSUMPTIONS = ['/proc/self/fd lists the open descriptors of the check process', 
 _F: Dict[Any, Any] = {}
 
 
-def flags_for(mode: str, auth: bool) -> Any:
-    key = (mode, auth, os.getpid())
+def tls_files() -> Tuple[str, str]:
+    """A throw-away self-signed key/cert pair for the end-to-end-encryption listener (openssl, once per process)."""
+    key = ('tls', os.getpid())
+    if key not in _F:
+        import subprocess
+        import tempfile
+        d = tempfile.mkdtemp(prefix='vf-c10-tls-')
+        subprocess.run(['openssl', 'req', '-x509', '-newkey', 'ec', '-pkeyopt', 'ec_paramgen_curve:prime256v1', '-nodes', '-days', '2',
+                        '-subj', '/CN=localhost', '-keyout', os.path.join(d, 'key.pem'), '-out', os.path.join(d, 'cert.pem')],
+                       check=True, capture_output=True, timeout=60)
+        _F[key] = (os.path.join(d, 'key.pem'), os.path.join(d, 'cert.pem'), d)
+    return _F[key][0], _F[key][1]
+
+
+def flags_for(mode: str, auth: bool, tls: bool = False) -> Any:
+    key = (mode, auth, tls, os.getpid())
     if key not in _F:
         from vf.props import c04, c07
         c05.flags()       # makes sure the plugin classes exist
@@ -51,6 +65,9 @@ def flags_for(mode: str, auth: bool) -> Any:
         opts: Dict[str, Any] = {'plugins': [c07.route_plugin(), c04._reverse_plugin(), c05._F['explode']]}
         if auth:
             opts['basic_auth'] = 'user:pass'
+        if tls:
+            k_, c_ = tls_files()
+            argv += ['--key-file', k_, '--cert-file', c_]
         _F[key] = K.make_flags(argv, **opts)
     return _F[key]
 
@@ -61,6 +78,9 @@ def conversation(role: str, i: int = 0) -> Dict[str, Any]:
     if role == 'reverse-keepalive':
         one = c05.conversation('reverse', 'canary')['requests'][0]
         return {'requests': [one, one.replace(b'/ra/canary', b'/rb/second'), one], 'tunnel': None}
+    if role == 'tls-handshake-fails':
+        # the listener speaks TLS (--key-file/--cert-file); this client sends plain HTTP, so setting the work up fails
+        return {'requests': [b'GET / HTTP/1.1\r\nHost: localhost\r\n\r\n'], 'tunnel': None, 'send_before_accept': True}
     if role == 'close-hook-raises':
         # a user plugin raises from its on_upstream_connection_close hook: Work.shutdown() raises
         return c05.conversation('forward', 'canary', explode='on_upstream_connection_close')
@@ -87,7 +107,7 @@ def fd_count() -> int:
 def run_case(c: Dict[str, Any], dry: bool = False) -> Dict[str, Any]:
     mode = c['mode']
     roles = c['roles']      # one or many consecutive connections
-    flags = flags_for(mode, 'auth-failed' in roles)
+    flags = flags_for(mode, 'auth-failed' in roles, 'tls-handshake-fails' in roles)
     K.CLOCK.reset()
     gc.collect()
     base_fds = fd_count()
@@ -122,7 +142,11 @@ def run_case(c: Dict[str, Any], dry: bool = False) -> Dict[str, Any]:
 
     def open_next(world: K.World) -> None:
         i = len(clients)
-        p = c05.make_client('client%d' % i, conversation(roles[i], i))
+        conv = conversation(roles[i], i)
+        p = c05.make_client('client%d' % i, conv)
+        p.send_before_accept = bool(conv.get('send_before_accept'))     # type: ignore[attr-defined]
+        if p.send_before_accept and isinstance(p, ReactiveClient):     # type: ignore[attr-defined]
+            p.out += conv['requests'][0]
         clients.append(p)
         state['conn'] = i
         if fault and fault['type'] == 'peer' and fault.get('conn', 0) == i:
@@ -291,6 +315,7 @@ def shards(tier: str) -> List[Dict[str, Any]]:
             out.append({'name': 'enum-%s-%s' % (mode, role), 'kind': 'enum', 'mode': mode, 'role': role})
     for mode in MODES:
         out.append({'name': 'repeat-%s' % mode, 'kind': 'repeat', 'mode': mode, 'n': 25 if q else 200})
+        out.append({'name': 'repeat-failed-setup-%s' % mode, 'kind': 'repeat', 'mode': mode, 'n': 8 if q else 60, 'only': 'tls-handshake-fails'})
     for i in range(3 if q else 9):
         out.append({'name': 'random-%d' % i, 'kind': 'random', 'examples': 250 if q else 5000})
     return out
@@ -332,8 +357,10 @@ def run_shard(spec: Dict[str, Any], seed: int, acc: Any) -> None:
                                         % (spec['mode'], spec['role'], ncalls, len(c05.ERRNOS), nacts, len(c05.PEER_FAULTS)))
             return
         if spec['kind'] == 'repeat':
-            roles = [r for r in ROLES if r not in ('auth-failed',) and not (spec['mode'] == 'threaded' and r == 'close-hook-raises')]
+            roles = [r for r in ROLES if r not in ('auth-failed', 'tls-handshake-fails') and not (spec['mode'] == 'threaded' and r == 'close-hook-raises')]
             seq = [roles[(i * 5 + i // 7) % len(roles)] for i in range(spec['n'])]
+            if spec.get('only'):
+                seq = [spec['only']] * spec['n']
             c = {'mode': spec['mode'], 'roles': seq}
             vs, info = evaluate(c)
             acc.case(c, True, labels=('repeat:%d' % spec['n'], 'mode:' + spec['mode']))
@@ -345,7 +372,7 @@ def run_shard(spec: Dict[str, Any], seed: int, acc: Any) -> None:
         @st.composite
         def strat(draw: Any) -> Dict[str, Any]:
             n = draw(st.integers(1, 4))
-            roles = [draw(st.sampled_from([r for r in ROLES if r not in ('auth-failed', 'close-hook-raises')])) for _ in range(n)]
+            roles = [draw(st.sampled_from([r for r in ROLES if r not in ('auth-failed', 'close-hook-raises', 'tls-handshake-fails')])) for _ in range(n)]
             ft = draw(st.sampled_from(['errno', 'errno', 'peer', 'connect', 'idle', 'none']))
             conn = draw(st.integers(0, n - 1))
             fault: Optional[Dict[str, Any]] = None
@@ -371,5 +398,9 @@ def run_shard(spec: Dict[str, Any], seed: int, acc: Any) -> None:
         hyp.drive(strat(), chk, acc, max_examples=spec['examples'], seed=seed, max_rounds=8)
     finally:
         c07.cleanup_static()
+        for k_, v_ in list(_F.items()):
+            if isinstance(k_, tuple) and k_[0] == 'tls':
+                import shutil
+                shutil.rmtree(v_[2], ignore_errors=True)
         _F.clear()
         c05._F.clear()
